@@ -324,6 +324,46 @@ func (st *State) bruteForce(rel, extra []*Term, wantModel bool) (SatResult, Mode
 	return Unsat, nil, true
 }
 
+// solveFallback re-discharges an obligation that came back unknown: other solvers, fresh process, 4x the time.
+func (st *State) solveFallback(extra []*Term) (SatResult, Model) {
+	kinds := []string{"z3", "cvc5"}
+	if st.solver.kind != "z3-new" {
+		kinds = []string{"z3-new", "z3"}
+	}
+	for _, k := range kinds {
+		sv, err := NewSolver(k, st.tp, 4*st.solver.timeout)
+		if err != nil {
+			continue
+		}
+		rel := st.relevant(extra)
+		for _, c := range rel {
+			sv.Assert(c)
+		}
+		for _, e := range extra {
+			sv.Assert(e)
+		}
+		r := sv.Check()
+		var m Model
+		if r == Sat {
+			part := sv.GetModel(st.vars)
+			m = Model{}
+			for kk, v := range st.model {
+				m[kk] = v
+			}
+			for kk, v := range part {
+				m[kk] = v
+			}
+		}
+		sv.Close()
+		st.job.noteQuery(r)
+		st.job.fallbacks++
+		if r != Unknown {
+			return r, m
+		}
+	}
+	return Unknown, nil
+}
+
 // query asks whether pc ∧ c is satisfiable. Unknown counts as feasible.
 func (st *State) query(c *Term) bool {
 	t0 := time.Now()
@@ -580,6 +620,8 @@ type Job struct {
 	forkSites       map[string]int
 	noSlicing       bool
 	brute           int
+	pruned          int
+	fallbacks       int
 	labels          []string
 	solveTime       time.Duration
 	inconclusive    []string
